@@ -283,7 +283,9 @@ namespace nmtools::index
             for (nm_size_t i=0; i<(nm_size_t)n_planes; i++) {
                 if constexpr (meta::is_index_array_v<dilation_t>) {
                     // assume same length as n_planes
-                    at(result,i) = at(dilation,i) - 1;
+                    // NOTE: the window axes are listed from the last plane to the first (see conv_window_axis),
+                    // the dilation is given from the first plane to the last
+                    at(result,i) = at(dilation,(nm_size_t)n_planes-1-i) - 1;
                 } else {
                     at(result,i) = dilation - 1;
                 }
